@@ -697,6 +697,29 @@ func runC09(c *h.Ctx) {
 			}
 		}
 	}
+	// thousands of items for most of which the condition of a filter fails
+	// quietly (an operand that is no number, a missing member in strict mode):
+	// the ten-thousandth item is filtered like the first
+	{
+		var els []string
+		for i := 0; i < 6000; i++ {
+			els = append(els, []string{`"x"`, `{"b":1}`, `"y"`}[i%3])
+		}
+		els = append(els, `"5"`, `7`, `{"a":9}`)
+		long := "[" + strings.Join(els, ",") + "]"
+		k := 0
+		for _, pt := range []string{`$[*] ? (@.double() > 1)`, `strict $[*] ? (@.a > 1)`, `$[*] ? (exists(@.double()))`, `$[*] ? (@.double() > 1 || @.a == 9)`, `$[*] ? (-@ < 0)`, `strict $[*] ? ((@.a == 9) is unknown).b`, `$[0 to last] ? (@.integer() == 7)`} {
+			k++
+			if !c.Mine(k) {
+				continue
+			}
+			p, err, pan := h.ParseSafe(pt)
+			if err != nil || pan != "" {
+				continue
+			}
+			checkSplit(c, &c09Case{lax: p.IsLax(), chain: gen.FromAST(p.AST).Root, split: 1, doc: long, useNum: k%2 == 0, vars: stdVars1})
+		}
+	}
 	r := c.Rand("c09")
 	g := &gen.G{R: r, C: gen.DefaultCfg()}
 	g.C.Datetime = true
